@@ -168,7 +168,9 @@ macro_rules! impl_read_at {
                 }
 
                 async fn read_vectored_at<T:IoVectoredBufMut>(&self, mut buf: T, pos: u64) -> BufResult<usize, T> {
-                    let slice = &self[pos as usize..];
+                    // A position beyond the end reads nothing, like `read_at`.
+                    let pos = (pos as usize).min(self.len());
+                    let slice = &self[pos..];
                     let mut this = slice;
 
                     for buf in buf.iter_uninit_slice() {
